@@ -197,6 +197,17 @@ def run(tier, selftest):
     if res_i.violation != "ImplOK":
         vlib.tool_error("expected-violation configuration MC_Include_Innermost did not fail")
     cases = list(res.prints("CASE"))
+    ngen = 0
+    if tier == "thorough":
+        # include trees generated from patterns (four levels, up to 7 files)
+        res_g = vlib.tlc("MC_IncludeGen", workers=8, coverage=False, timeout=1800, heap="8g")
+        if res_g.violation:
+            rep.violation(f"include-spec:{res_g.violation}", "TLC: the writer model of Include.tla does not reproduce the includes of a generated tree", {"kind": "tlc"})
+        gen = list(res_g.prints("CASE"))
+        ngen = len(gen)
+        if ngen < 10000:
+            vlib.tool_error(f"vacuity: only {ngen} generated include trees")
+        cases += gen
     fams = {}
     for c in cases:
         fams[c["fam"]] = fams.get(c["fam"], 0) + 1
@@ -209,7 +220,7 @@ def run(tier, selftest):
     regular = [p for p, c in zip(prepared, cases) if c["fam"] != "fault"]
     pth = os.path.join(vlib.scratch(), "inc_cases.ndjson")
     vlib.write_ndjson(pth, regular)
-    rc, lines, err = vlib.run_harness(binp, ["include-op", "--cases", pth], timeout=900)
+    rc, lines, err = vlib.run_harness(binp, ["include-op", "--cases", pth], timeout=3000)
     results = {l["id"]: l for l in lines if "id" in l}
     for p, c in zip(prepared, cases):
         if c["fam"] == "fault":
@@ -237,10 +248,11 @@ def run(tier, selftest):
         "traces_validated_against_impl": len(cases),
         "exhaustive": True,
         "evaluations": len(cases),
-        "distinct_nontrivial": sum(1 for c in cases if c["fam"] != "shape" or c["sh"] in ("nested2", "nested3", "sibling_nested")),
-        "rule": "8 include shapes x 3 placements per include file x quoted/unquoted x 2 separators, an include inside A2ML (12 variants), 5 fault kinds x quoted/unquoted; non-trivial = nested includes, A2ML includes and faults",
+        "distinct_nontrivial": sum(1 for c in cases if c["fam"] != "shape" or c["sh"] in ("nested2", "nested3", "sibling_nested", "generated")),
+        "rule": "8 include shapes x 3 placements per include file x quoted/unquoted x 2 separators, an include inside A2ML (12 variants), 5 fault kinds x quoted/unquoted; thorough: every include tree of MC_IncludeGen (patterns over four levels, up to 7 files, placement per level, quoted with / or unquoted with backslash); non-trivial = nested includes, A2ML includes and faults",
         "samples": [cases[0], next(c for c in cases if c["fam"] == "fault")],
         "families": fams,
+        "generated_include_trees": ngen,
         "expected_violation_config": {"cfg": "MC_Include_Innermost", "violated": res_i.violation},
     }
     if binding:
